@@ -443,6 +443,27 @@ class IRGen:
                 s["entry"] = ep
                 s["entrytype"] = {"k": "ref", "pkg": p, "name": ep}
             out.append(s)
+        if self.features.get("twins") and out and r.random() < self.features["twins"]:
+            # a second package with the same object names and shapes (references retargeted to itself):
+            # exposes state leaking from one package to the next inside a pass
+            import copy as _copy
+            src = r.choice(out)
+            twin = _copy.deepcopy(src)
+            twin["pkg"] = "twin"
+
+            def retarget(x):
+                if isinstance(x, dict):
+                    if x.get("k") in ("ref", "cref") and x.get("pkg") == src["pkg"]:
+                        x["pkg"] = "twin"
+                    for v in x.values():
+                        retarget(v)
+                elif isinstance(x, list):
+                    for v in x:
+                        retarget(v)
+            retarget(twin["objects"])
+            if twin.get("entrytype"):
+                retarget(twin["entrytype"])
+            out.insert(r.randrange(len(out) + 1), twin)
         if self.features.get("acyclic_aliases"):
             solid = [(s["pkg"], o["name"]) for s in out for o in s["objects"]
                      if not (o["type"]["k"] == "ref" and o["type"].get("name") == "__ALIAS_TARGET__")]
